@@ -63,6 +63,11 @@ def make_targets(lab):
     class Sess(object):
         def __init__(self):
             lab.session_refs.append((0, weakref.ref(self)))
+            # a session object may acquire something when it is made: that belongs to the connection it is made for
+            rid = getattr(lab, "ctor_resource", None)
+            if rid is not None:
+                lab.ctor_resource = None
+                lab.current_context.track_resource(lab.resources[rid])
 
         def touch(self):
             for i, (c, r) in enumerate(lab.session_refs):
@@ -184,8 +189,17 @@ def run_scenarios(scens, servertype, timeout, seed):
                     call(victim, "target", "untrack", [1], ser, seq)
                     seq += 1
                 if scen["session"]:
+                    if by is not None:
+                        # somebody else's request is the last thing this server thread has seen before the session object is made
+                        call(by, "target", "mark", [1], ser, 9)
+                        sc.quiesce()
+                    lab.ctor_resource = 3
                     call(victim, "sess", "touch", [], ser, seq)
                     seq += 1
+                    sc.quiesce()
+                    if lab.ctor_resource is None:
+                        lab.log.append({"e": "Track", "c": victim.cid, "r": 3})       # tracked by the constructor, for the victim's connection
+                    lab.ctor_resource = None
                 if scen.get("stream"):
                     call(victim, "target", "gen", [5], ser, seq)      # an unfinished streamed result stays behind
                     seq += 1
